@@ -9,7 +9,7 @@ def parseKind : String → Option Kind
 def numAfter (s : String) (n : Nat) : Option Nat := (s.drop n).toString.toNat?
 
 def parseOp (t : String) : Option Op :=
-  if t == "N" then some (.newStream false) else if t == "NF" then some (.newStream true)
+  if t == "N" || t == "NQ" then some (.newStream false) else if t == "NF" then some (.newStream true)
   else if t == "S" then some .shutdown else if t == "Z" then some .closeAll
   else if t == "E+" then some .extInc else if t == "E-" then some .extDec
   else if t.startsWith "RC" then (numAfter t 2).map (fun n => .response n true)
@@ -79,9 +79,22 @@ def pool (kind mc mr ops : String) (impl : List String) : String :=
     s!"{if agree then "A" else "D"} {if spec then "S" else "V"} {joinWith " " modelToks}"
   | _, _, _, _ => "E E bad-case"
 
+/-- concurrent phase (support): only the final, quiescent observation is judged — no stream in flight, books equal
+the truth (`obsSpec` with nothing held elsewhere); the sequential model makes no prediction here. -/
+def conc (mr : String) (impl : List String) : String :=
+  match mr.toNat?, impl with
+  | some maxReq, [t] =>
+    match parseObs t with
+    | some (_, o) =>
+      let ok := obsSpec maxReq 0 o && o.liveConns.isEmpty
+      s!"A {if ok then "S" else "V"} -"
+    | none => "A V unreadable-observation"
+  | _, _ => "E E bad-case"
+
 def run (caseToks impl : List String) : String :=
   match caseToks with
   | ["pool", kind, mc, mr, ops] => pool kind mc mr ops impl
+  | ["conc", _, _, mr, _, _, _] => conc mr impl
   | _ => "E E unknown-kind"
 
 end MosnVerif.Drive.C09
